@@ -449,6 +449,19 @@ def run(v, tier, seed, g):
         seen_kinds.add(kind)
         v.violation(f"fmtC-outside-wf:{kind}", f"formatter prints {text!r}, which C lexes as {real!r}",
                     {"text": text, "model_tokens": model, "real_tokens": real})
+    # (a') statement level: the statement printer model (StmtFmt.fmtS, whose output is proved to derive the tree under the
+    #      statement grammar) against the real Formatter, token by token, on every statement of the corpus kernels
+    import corpus as _corpus
+    import stmtcorr
+    sc = stmtcorr.run(list(_corpus.PINNED) + _corpus.random_cases(seed + 3, 6 if tier == "quick" else 120))
+    v.oblige(sc["kernels"] > 0 and sc["equal"] == sc["kernels"] and not sc["errors"], max(sc["kernels"], 1))
+    for e in sc["errors"][:2]:
+        v.violation(f"stmt-model-harness:{e[0]}", f"the statement-printer correspondence could not be evaluated for case {e[0]}: {e[1]}", {"error": e}, no_input=True)
+    for mm in sc["mismatches"][:3]:
+        v.violation(f"stmt-model:{mm['case']}", f"C/formatter.py prints kernel {mm['kernel'][:40]} of case {mm['case']} differently from the statement-printer model StmtFmt.fmtS "
+                    f"(first difference at token {mm['token_index']}: real text has {mm['real_tokens_there']}); the model is what C16_printed_statements_derive_the_tree is about",
+                    mm, no_input=True)
+    v.notes["statement_printer_correspondence"] = {k: sc[k] for k in ("kernels", "equal", "tokens", "skipped", "not_wf", "negative_zero_literals_read_as_zero")}
     # (b) whole kernels: pycparser reading of the real text vs the exported AST
     import astprops
     import corpus
